@@ -9,9 +9,9 @@ CONSTANTS
   BinOps = {}
   BinMods = {}
   Offsets <- OffFew
-  BadOffsets = {"NaN", "Inf", "1e10"}
+  BadOffsets = {"NaN", "Inf"}
   AtMods <- AtFew
-  Exts = {"anchored", "smoothed"}
+  Exts = {"anchored"}
   Ranges = {300000}
   SubSteps = {0, 60000}
   Parens = TRUE
